@@ -3,7 +3,7 @@
 verus! {
 //@ include prelude/base.rs
 //@ include prelude/std_assumed.rs
-//@ shims features git_config cli
+//@ shims features git_config cli config
 //@ broadcast vax::vax_group vstd::std_specs::hash::group_hash_axioms axiom_string_obeys_key_model axiom_borrowed_string_keys axiom_borrowed_string_values axiom_str_key_inverse axiom_to_string_string
 use vstd::std_specs::hash::*;
 
@@ -79,13 +79,52 @@ impl GitConfig {
 }
 
 // ---------------------------------------------------------------- options/set.rs: --no-gitconfig
-//@ type src/cli.rs Opt keep=features,no_gitconfig noderive
+//@ type src/cli.rs Opt keep=features,no_gitconfig,minus_style,minus_emph_style noderive
 
 //@ region src/options/set.rs set_options
 //@sig pub fn set_options_no_gitconfig_prologue(opt: &mut cli::Opt, git_config: &mut Option<GitConfig>)
 //@from <<<^>>>
 //@until <<<opt.navigate = >>>
 //@| ensures old(opt).no_gitconfig ==> (*final(git_config) matches Some(g) ==> !g.enabled),  // @C13:no.gitconfig.disables.every.gitconfig.lookup
+
+
+// ---------------------------------------------------------------- options/set.rs: a value given on the command line is never replaced
+pub mod clap {
+    use vstd::prelude::*;
+    #[verifier::external_body]
+    pub struct ArgMatches { _p: u8 }
+}
+/// config::user_supplied_option: was this option given on the command line; uninterpreted
+pub uninterp spec fn user_supplied(name: Seq<char>, m: &clap::ArgMatches) -> bool;
+#[verifier::external_body]
+pub fn user_supplied_option(option: &str, arg_matches: &clap::ArgMatches) -> (r: bool)
+    ensures r == user_supplied(option@, arg_matches) { unimplemented!() }
+/// (R3) `features.contains(&"side-by-side".to_string())`
+#[verifier::external_body]
+pub fn verif_has_feature(features: &Vec<String>, name: &str) -> (r: bool) { unimplemented!() }
+/// (R3) `&s[n..]` (this vstd gives str range indexing no postcondition): the rest of the string; in range is an obligation
+pub uninterp spec fn str_tail(s: Seq<char>, n: int) -> Seq<char>;
+#[verifier::external_body]
+pub fn verif_str_tail(s: &str, n: usize) -> (r: &str)
+    requires is_prefix_bytes(s, n),  // @C03:set_options.slice.starts.after.a.prefix.that.is.there
+    ensures r@ == str_tail(s@, n as int),
+{ unimplemented!() }
+/// the first n bytes of s are a whole prefix of its characters (so slicing at n is in range and on a boundary)
+pub open spec fn is_prefix_bytes(s: &str, n: usize) -> bool {
+    exists|p: Seq<char>| #[trigger] is_prefix(p, s@) && encode_utf8(p).len() == n
+}
+
+//@ region src/options/set.rs set_options
+//@sig pub fn set_options_side_by_side_minus_styles(opt: &mut cli::Opt, features: &Vec<String>, arg_matches: &clap::ArgMatches)
+//@from <<<if features.contains(&"side-by-side".to_string()) {>>>
+//@until <<<// Handle options which default to an arbitrary git config value.>>>
+//@rewrite <<<features.contains(&"side-by-side".to_string())>>> => <<<verif_has_feature(features, "side-by-side")>>>
+//@rewrite <<<&opt.minus_style[prefix.len()..]>>> => <<<verif_str_tail(&opt.minus_style, prefix.len())>>>
+//@rewrite <<<&opt.minus_emph_style[prefix.len()..]>>> => <<<verif_str_tail(&opt.minus_emph_style, prefix.len())>>>
+//@| ensures user_supplied("minus_style"@, arg_matches) ==> final(opt).minus_style == old(opt).minus_style,  // @C13,C12:a.minus.style.given.on.the.command.line.is.kept
+//@|         user_supplied("minus_emph_style"@, arg_matches) ==> final(opt).minus_emph_style == old(opt).minus_emph_style,  // @C13,C12:a.minus.emph.style.given.on.the.command.line.is.kept
+//@|         !is_prefix("normal "@, old(opt).minus_style@) ==> final(opt).minus_style == old(opt).minus_style,  // @C12:only.a.normal.minus.style.is.turned.into.syntax
+//@|         final(opt).features == old(opt).features && final(opt).no_gitconfig == old(opt).no_gitconfig,
 
 // ---------------------------------------------------------------- options/get.rs
 //@ type src/options/option_value.rs OptionValue noderive
